@@ -1407,6 +1407,16 @@ where
     #[inline(always)]
     fn skip_number_unsafe(&mut self) -> Result<()> {
         let _ = self.get_next_token([b']', b'}', b','], 0);
+        // the scan stops at the next delimiter (or at the end of input): the blanks in front of
+        // it are not part of the number
+        while self.read.index() > 0
+            && matches!(
+                self.read.at(self.read.index() - 1),
+                b' ' | b'\t' | b'\n' | b'\r'
+            )
+        {
+            self.read.backward(1);
+        }
         Ok(())
     }
 
